@@ -92,6 +92,11 @@ def via_middleware(bib, text):
     m = bib.middlewares
     names = [text] if len(text) % 2 else ["Valid de Name, Jr, First", text, "Another Valid"]
     e = M.Entry("article", "k", [M.Field("author", list(names)), M.Field("title", "t")], start_line=1, raw="@article{k}")
+    if len(text) % 5 == 0:
+        # the author field got its key late: built under another key, looked at, then renamed through the Field's setter
+        e = M.Entry("article", "k", [M.Field("writer", list(names)), M.Field("title", "t")], start_line=1, raw="@article{k}")
+        _ = ("author" in e, e.get("author"), e.fields_dict)
+        e.fields[0].key = "author"
     lib = bib.Library([e])
     try:
         if len(text) % 3 == 0:
@@ -110,14 +115,17 @@ def via_middleware(bib, text):
     b = out.blocks[0]
     if isinstance(b, M.MiddlewareErrorBlock):
         inner = b.ignore_error_block
-        keeps = isinstance(inner, M.Entry) and inner.key == "k" and inner["author"] == names and inner["title"] == "t"
+        keeps = isinstance(inner, M.Entry) and inner.key == "k" and [f.value for f in inner.fields if f.key == "author"] == [names] and [f.value for f in inner.fields if f.key == "title"] == ["t"]
         try:
             bib.write_string(out)
             writable = True
         except Exception:  # noqa
             writable = False
         return {"err": True, "keeps_entry": keeps, "writable": writable}
-    p = b["author"][0 if len(names) == 1 else 1]
+    try:
+        p = next(f.value for f in b.fields if f.key == "author")[0 if len(names) == 1 else 1]
+    except Exception as ex:  # noqa
+        return {"err": False, "parts": {"first": [], "von": [], "last": [], "jr": [], "not_split": f"{type(ex).__name__}: {ex}"}}
     if not hasattr(p, "first"):
         return {"err": False, "parts": {"first": [], "von": [], "last": [], "jr": [], "not_split": repr(p)}}
     return {"err": False, "parts": {"first": list(p.first), "von": list(p.von), "last": list(p.last), "jr": list(p.jr)}}
